@@ -26,7 +26,7 @@ def gen_case(rng):
   regs = G.gen_registry(rng, rng.randint(2, 3))
   for r in regs:   # C11 only binds: a pass-through decorator under gin must not widen what is bindable
     if r['_kind'] == 'fn' and rng.random() < 0.3:
-      r['_decorated'] = True
+      r['_decorated'] = rng.choice([1, 1, 2, 3])
   ops = list(regs)
   bindable = list(regs)
   if rng.random() < 0.35:
